@@ -1205,6 +1205,9 @@ func (fc *FnCtx) makeInterface(x *ssa.MakeInterface) Val {
 		if s, ok := sortOf(xt); ok && s == SStr {
 			fc.assume(eq(app("iface_str", r), fc.term(x.X)))
 		}
+		if s, ok := sortOf(xt); ok && s == SSlice {
+			fc.assume(eq(app("iface_slice", r), fc.term(x.X)))
+		}
 		return r
 	}
 }
